@@ -27,7 +27,7 @@ use crate::{
     void::Void,
 };
 
-use super::json_tokenizer::{JsonTokenizer, JsonValue};
+use super::json_tokenizer::{JsonTokenizer, JsonValue, MAX_NESTING};
 
 pub fn load_from_string(
     s: &str,
@@ -35,6 +35,10 @@ pub fn load_from_string(
     let mut tok = JsonTokenizer::new_from_str(s);
 
     parse(&mut tok)
+}
+
+fn bad(expected: &str) -> StoryError {
+    StoryError::BadJson(format!("Expected {expected}"))
 }
 
 fn parse(
@@ -50,7 +54,7 @@ fn parse(
         ));
     }
 
-    let version: i32 = tok.read_number().unwrap().as_integer().unwrap();
+    let version: i32 = tok.read_number()?.as_integer().ok_or_else(|| bad("an integer"))?;
 
     if version > INK_VERSION_CURRENT {
         return Err(StoryError::BadJson(
@@ -129,10 +133,10 @@ fn jtoken_to_runtime_object(
         JsonValue::Boolean(value) => Ok(ArrayElement::RTObject(Rc::new(Value::new::<bool>(value)))),
         JsonValue::Number(value) => {
             if value.is_integer() {
-                let val: i32 = value.as_integer().unwrap();
+                let val: i32 = value.as_integer().ok_or_else(|| bad("an integer"))?;
                 Ok(ArrayElement::RTObject(Rc::new(Value::new::<i32>(val))))
             } else {
-                let val: f32 = value.as_float().unwrap();
+                let val: f32 = value.as_float().ok_or_else(|| bad("a number"))?;
                 Ok(ArrayElement::RTObject(Rc::new(Value::new::<f32>(val))))
             }
         }
@@ -140,7 +144,11 @@ fn jtoken_to_runtime_object(
             let str = value.as_str();
 
             // String value
-            let first_char = str.chars().next().unwrap();
+            let Some(first_char) = str.chars().next() else {
+                return Err(StoryError::BadJson(
+                    "Failed to convert an empty string to runtime RTObject".to_owned(),
+                ));
+            };
             if first_char == '^' {
                 return Ok(ArrayElement::RTObject(Rc::new(Value::new::<&str>(
                     &str[1..],
@@ -195,13 +203,13 @@ fn jtoken_to_runtime_object(
 
             // // VariablePointerValue
             if prop == "^var" {
-                let variable_name = prop_value.as_str().unwrap();
+                let variable_name = prop_value.as_str().ok_or_else(|| bad("a string"))?;
                 let mut contex_index = -1;
 
                 if tok.peek()? == ',' {
                     tok.expect(',')?;
                     tok.expect_obj_key("ci")?;
-                    contex_index = tok.read_number().unwrap().as_integer().unwrap();
+                    contex_index = tok.read_number()?.as_integer().ok_or_else(|| bad("an integer"))?;
                 }
 
                 let var_ptr = Rc::new(Value::new_variable_pointer(variable_name, contex_index));
@@ -233,7 +241,7 @@ fn jtoken_to_runtime_object(
             }
 
             if is_divert {
-                let target = prop_value.as_str().unwrap().to_string();
+                let target = prop_value.as_str().ok_or_else(|| bad("a string"))?.to_string();
 
                 let mut var_divert_name: Option<String> = None;
                 let mut target_path: Option<String> = None;
@@ -252,7 +260,7 @@ fn jtoken_to_runtime_object(
                     } else if prop == "c" {
                         conditional = true;
                     } else if prop == "exArgs" {
-                        external_args = prop_value.as_integer().unwrap() as usize;
+                        external_args = prop_value.as_integer().ok_or_else(|| bad("an integer"))? as usize;
                     }
                 }
 
@@ -275,12 +283,12 @@ fn jtoken_to_runtime_object(
             // Choice
             if prop == "*" {
                 let mut flags = 0;
-                let path_string_on_choice = prop_value.as_str().unwrap();
+                let path_string_on_choice = prop_value.as_str().ok_or_else(|| bad("a string"))?;
 
                 if tok.peek()? == ',' {
                     tok.expect(',')?;
                     tok.expect_obj_key("flg")?;
-                    flags = tok.read_number().unwrap().as_integer().unwrap();
+                    flags = tok.read_number()?.as_integer().ok_or_else(|| bad("an integer"))?;
                 }
 
                 tok.expect('}')?;
@@ -294,14 +302,14 @@ fn jtoken_to_runtime_object(
             if prop == "VAR?" {
                 tok.expect('}')?;
                 return Ok(ArrayElement::RTObject(Rc::new(VariableReference::new(
-                    prop_value.as_str().unwrap(),
+                    prop_value.as_str().ok_or_else(|| bad("a string"))?,
                 ))));
             }
 
             if prop == "CNT?" {
                 tok.expect('}')?;
                 return Ok(ArrayElement::RTObject(Rc::new(
-                    VariableReference::from_path_for_count(prop_value.as_str().unwrap()),
+                    VariableReference::from_path_for_count(prop_value.as_str().ok_or_else(|| bad("a string"))?),
                 )));
             }
 
@@ -318,7 +326,7 @@ fn jtoken_to_runtime_object(
             }
 
             if is_var_ass {
-                let var_name = prop_value.as_str().unwrap();
+                let var_name = prop_value.as_str().ok_or_else(|| bad("a string"))?;
                 let mut is_new_decl = true;
 
                 if tok.peek()? == ',' {
@@ -341,7 +349,7 @@ fn jtoken_to_runtime_object(
             if prop == "#" {
                 tok.expect('}')?;
                 return Ok(ArrayElement::RTObject(Rc::new(Tag::new(
-                    prop_value.as_str().unwrap(),
+                    prop_value.as_str().ok_or_else(|| bad("a string"))?,
                 ))));
             }
 
@@ -385,7 +393,9 @@ fn jtoken_to_runtime_object(
 
             // Used when serialising save state only
             if prop == "originalChoicePath" {
-                todo!("originalChoicePath");
+                return Err(StoryError::BadJson(
+                    "A saved choice is not valid story content".to_owned(),
+                ));
                 // return jobject_to_choice(obj); // TODO
             }
 
@@ -399,9 +409,9 @@ fn jtoken_to_runtime_object(
 
             loop {
                 if p == "#f" {
-                    flags = pv.as_integer().unwrap();
+                    flags = pv.as_integer().ok_or_else(|| bad("an integer"))?;
                 } else if p == "#n" {
-                    name = Some(pv.as_str().unwrap().to_string());
+                    name = Some(pv.as_str().ok_or_else(|| bad("a string"))?.to_string());
                 } else {
                     let named_content_item = jtoken_to_runtime_object(tok, pv, Some(p.clone()))?;
 
@@ -417,7 +427,9 @@ fn jtoken_to_runtime_object(
                     let named_sub_container = named_content_item
                         .into_any()
                         .downcast::<Container>()
-                        .unwrap();
+                        .map_err(|_| {
+                            StoryError::BadJson("Named content is not a container".to_owned())
+                        })?;
 
                     named_only_content.insert(p, named_sub_container);
                 }
@@ -447,7 +459,7 @@ fn parse_list(tok: &mut JsonTokenizer) -> Result<HashMap<String, i32>, StoryErro
 
     while tok.peek()? != '}' {
         let key = tok.read_obj_key()?;
-        let value = tok.read_number().unwrap().as_integer().unwrap();
+        let value = tok.read_number()?.as_integer().ok_or_else(|| bad("an integer"))?;
         list_content.insert(key, value);
 
         if tok.peek()? != '}' {
@@ -464,7 +476,16 @@ fn jarray_to_container(
     tok: &mut JsonTokenizer,
     name: Option<String>,
 ) -> Result<Rc<dyn RTObject>, StoryError> {
-    let (content, named) = jarray_to_runtime_obj_list(tok)?;
+    if tok.nesting >= MAX_NESTING {
+        return Err(StoryError::BadJson(
+            "Story content is nested too deeply".to_owned(),
+        ));
+    }
+
+    tok.nesting += 1;
+    let list_result = jarray_to_runtime_obj_list(tok);
+    tok.nesting -= 1;
+    let (content, named) = list_result?;
 
     // Final object in the array is always a combination of
     //  - named content
